@@ -504,6 +504,17 @@ func init() {
 			return strconv.FormatUint(uint64(asInt64(a[0])), int(asInt64(a[1])))
 		},
 		"strconv.FormatFloat": func(fr *frame, a []value) value {
+			if f, ok := a[0].(float64); ok && !allConcrete(a) {
+				// concrete number, symbolic verb or precision: enumerate them
+				verb, prec := a[1], a[2]
+				if sv, ok := verb.(*Sym); ok {
+					verb = byte(eng.concretize(sv))
+				}
+				if sp, ok := prec.(*Sym); ok {
+					prec = int(eng.concretize(sp))
+				}
+				return strconv.FormatFloat(f, verb.(byte), int(asInt64(prec)), int(asInt64(a[3])))
+			}
 			if !allConcrete(a) {
 				return symFormatFloat(a[0])
 			}
@@ -903,7 +914,7 @@ func init() {
 		"runtime.SetFinalizer": func(fr *frame, a []value) value {
 			return nil
 		},
-		"time.Sleep": func(fr *frame, a []value) value { sched.sleepYield(); return nil },
+		"time.Sleep": func(fr *frame, a []value) value { retrySleep(fr); sched.sleepYield(); return nil },
 		"os.Exit":    func(fr *frame, a []value) value { panic(exitPanic(asInt64(a[0]))) },
 		"os.Getenv":  func(fr *frame, a []value) value { return "" },
 		"internal/bytealg.IndexByteString": func(fr *frame, a []value) value {
@@ -952,8 +963,14 @@ func init() {
 	installAtomics()
 	// timers never fire by themselves: deadlines are modelled explicitly by harness contexts
 	externals["time.AfterFunc"] = func(fr *frame, a []value) value {
-		used("time.AfterFunc / context deadlines (model: timers never fire; timeouts are injected by harness contexts)")
 		var cell value = zero(namedType(fr, "time", "Timer"))
+		if timersOn {
+			t := &vtimer{f: a[1]}
+			timers = append(timers, t)
+			timerOf[&cell] = t
+			return &cell
+		}
+		used("time.AfterFunc / context deadlines (model: timers never fire; timeouts are injected by harness contexts)")
 		return &cell
 	}
 	externals["time.NewTimer"] = func(fr *frame, a []value) value {
@@ -962,7 +979,16 @@ func init() {
 		var cell value = st
 		return &cell
 	}
-	externals["(*time.Timer).Stop"] = func(fr *frame, a []value) value { return true }
+	externals["(*time.Timer).Stop"] = func(fr *frame, a []value) value {
+		if p, ok := a[0].(*value); ok {
+			if t := timerOf[p]; t != nil {
+				was := !t.fired && !t.stopped
+				t.stopped = true
+				return was
+			}
+		}
+		return true
+	}
 	externals["(*time.Timer).Reset"] = func(fr *frame, a []value) value { return true }
 	externals["(*sync/atomic.Value).Load"] = func(fr *frame, a []value) value {
 		c := structField(a[0], 0)
